@@ -385,6 +385,68 @@ class xs_with:
         _XS_SUB = self.prev
 
 
+def _string_pieces(N, n, depth=0):
+    """literal / expression pieces of a string-building expression, or None when `n` is not one"""
+    import re
+    if depth > 6:
+        return None
+
+    def sub(x):
+        r = _string_pieces(N, x, depth + 1)
+        if r is not None:
+            return r
+        if isinstance(x, N.Const) and isinstance(x.value, (str, int)) and not isinstance(x.value, bool):
+            return [str(x.value)]
+        return [x]
+
+    if isinstance(n, N.Concat):
+        out = []
+        for x in n.nodes:
+            out += sub(x)
+        return out
+    if isinstance(n, N.Add) and (isinstance(n.left, N.Const) and isinstance(n.left.value, str) or isinstance(n.right, N.Const) and isinstance(n.right.value, str)
+                                 or _string_pieces(N, n.left, depth + 1) is not None or _string_pieces(N, n.right, depth + 1) is not None):
+        def side(x):
+            if isinstance(x, N.Const) and isinstance(x.value, str):
+                return [x.value]
+            r = _string_pieces(N, x, depth + 1)
+            return r if r is not None else [x]
+        return side(n.left) + side(n.right)
+    if isinstance(n, N.Call) and isinstance(n.node, N.Getattr) and n.node.attr == "format" and isinstance(n.node.node, N.Const) and isinstance(n.node.node.value, str) \
+            and not n.kwargs and n.dyn_args is None and n.dyn_kwargs is None:
+        segs = n.node.node.value.split("{}")
+        if len(segs) == len(n.args) + 1 and not any("{" in x or "}" in x for x in segs):
+            out = []
+            for i, sg in enumerate(segs):
+                out.append(sg)
+                if i < len(n.args):
+                    out += sub(n.args[i])
+            return out
+        return None
+    fmt = args = None
+    if isinstance(n, N.Filter) and n.name == "format" and isinstance(n.node, N.Const) and isinstance(n.node.value, str) and not n.kwargs:
+        fmt, args = n.node.value, list(n.args)
+    elif isinstance(n, N.Mod) and isinstance(n.left, N.Const) and isinstance(n.left.value, str):
+        fmt, args = n.left.value, (list(n.right.items) if isinstance(n.right, N.Tuple) else [n.right])
+    if fmt is not None:
+        specs = list(re.finditer(r"%(?:%|[sd])", fmt))
+        real = [m for m in specs if m.group(0) != "%%"]
+        if len(real) != len(args) or re.search(r"%[^%sd]", fmt):
+            return None
+        out, pos, k = [], 0, 0
+        for m in specs:
+            out.append(fmt[pos:m.start()])
+            pos = m.end()
+            if m.group(0) == "%%":
+                out.append("%")
+            else:
+                out += sub(args[k])
+                k += 1
+        out.append(fmt[pos:])
+        return out
+    return None
+
+
 def xs(n) -> str:
     """Canonical string of a Jinja expression node (whitespace/quote/paren independent)."""
     N = _J.nodes
@@ -416,6 +478,23 @@ def xs(n) -> str:
         return f"{xs(n.start) if n.start is not None else ''}:{xs(n.stop) if n.stop is not None else ''}" + (
             f":{xs(n.step)}" if n.step is not None else ""
         )
+    pieces = _string_pieces(N, n)
+    if pieces is not None:
+        # one spelling for string building: 'a{}b'.format(x), 'a%sb' % x, 'a%sb' | format(x), 'a' ~ x ~ 'b', 'a' + x + 'b'
+        flat = []
+        for p_ in pieces:
+            if isinstance(p_, str):
+                if p_ == "":
+                    continue
+                if flat and isinstance(flat[-1], str):
+                    flat[-1] += p_
+                else:
+                    flat.append(p_)
+            else:
+                flat.append(p_)
+        if len(flat) == 1 and isinstance(flat[0], str):
+            return repr(flat[0])
+        return "(" + " ~ ".join(repr(x) if isinstance(x, str) else xs(x) for x in flat) + ")"
     if isinstance(n, (N.Call, N.Filter, N.Test)):
         args = [xs(a) for a in n.args] + [f"{k.key}={xs(k.value)}" for k in n.kwargs]
         if n.dyn_args is not None:
